@@ -14,6 +14,8 @@ import (
 	"strconv"
 	"strings"
 	"sync"
+	"sync/atomic"
+	"time"
 
 	"github.com/pion/webrtc/v4"
 )
@@ -34,7 +36,30 @@ func c11Premise(calls [][2]uint64) bool {
 	return calls[0][0] != 0 && calls[0][1] != 0 && calls[0][1] <= ^uint64(0)-uint64(len(calls))
 }
 
+// a call that does not return within the limit is reported once; later cases
+// of the run then fail at once instead of piling up spinning goroutines
+var c11Hung atomic.Bool
+
+func c11Update(o *webrtc.VerifOrigin, sid, ver uint64) (uint64, uint64, bool) {
+	type res struct{ a, b uint64 }
+	ch := make(chan res, 1)
+	go func() {
+		a, b := o.Update(sid, ver)
+		ch <- res{a, b}
+	}()
+	select {
+	case r := <-ch:
+		return r.a, r.b, true
+	case <-time.After(5 * time.Second):
+		c11Hung.Store(true)
+		return 0, 0, false
+	}
+}
+
 func c11SeqRun(in c11Seq) (V, Verdict) {
+	if c11Hung.Load() {
+		return VS("hung"), Fail("update-never-returns", "an earlier updateSDPOrigin call of this run never returned")
+	}
 	var o webrtc.VerifOrigin
 	out := VL{}
 	type res struct{ sid, ver uint64 }
@@ -49,7 +74,10 @@ func c11SeqRun(in c11Seq) (V, Verdict) {
 			hung = true
 			break
 		}
-		s, v := o.Update(c[0], c[1])
+		s, v, ok := c11Update(&o, c[0], c[1])
+		if !ok {
+			return out, Fail("update-never-returns", fmt.Sprintf("call %d (%d, %d) did not return although the saved id is %d", len(got), c[0], c[1], savedSid))
+		}
 		got = append(got, res{s, v})
 		out = append(out, VL{vU64(s), vU64(v)})
 	}
